@@ -17,6 +17,7 @@ import (
 	"verif/mc/props/c12"
 	"verif/mc/props/c13"
 	"verif/mc/props/c14"
+	"verif/mc/props/c15"
 	"verif/mc/props/c17"
 	"verif/mc/props/c18"
 	"verif/mc/props/c19"
@@ -38,6 +39,7 @@ func main() {
 		"C12": c12.Prop,
 		"C13": c13.Prop,
 		"C14": c14.Prop,
+		"C15": c15.Prop,
 		"C17": c17.Prop,
 		"C18": c18.Prop,
 		"C19": c19.Prop,
